@@ -8,6 +8,9 @@ import OAuth2Model.Driver.SecEq
 import OAuth2Model.Driver.Resp
 import OAuth2Model.Driver.Tok
 import OAuth2Model.Driver.Err
+import OAuth2Model.Driver.Intro
+import OAuth2Model.Driver.DevAuth
+import OAuth2Model.Driver.Rt
 import OAuth2Model.Driver.Adapter
 
 def dispatch (line : String) : String :=
@@ -28,6 +31,9 @@ def dispatch (line : String) : String :=
     | "resp" => Drv.RespOp.run args
     | "tok" => Drv.TokOp.run args
     | "err" => Drv.ErrOp.run args
+    | "intro" => Drv.IntroOp.run args
+    | "devauth" => Drv.DevAuthOp.run args
+    | "rt" => Drv.RtOp.run args
     | "adp" => Drv.AdapterOp.run args
     | _ => "bad-op"
 
